@@ -112,6 +112,29 @@ func (c *c16) Run(cs core.Case) core.Result {
 		{Name: "A.bin", Data: scen.GenData(rng, "random", p.LenA, s)},
 		{Name: "sub/B.bin", Data: scen.GenData(rng, "random", p.LenB, s)},
 	}}
+	// History: the same process first scans a damaged set with a DIFFERENT
+	// slice size, so any state that survives between operations (cached
+	// tables, pools) would be exercised.
+	{
+		aux := scen.Set{SliceSize: []int{4, 8, 36, 1024}[rng.Intn(4)], Blocks: 2, Content: "random"}
+		if aux.SliceSize == s {
+			aux.SliceSize = s + 4
+		}
+		aux.Files = []scen.File{{Name: "aux.bin", Data: scen.GenData(rng, "random", 5*aux.SliceSize+3, aux.SliceSize)}}
+		if auxEnv, err := newP2Env(aux, "aux", 2); err == nil {
+			auxEnv.st.Apply(scen.Op{Kind: "insert", A: 0, Pos: aux.SliceSize + 1, G: scen.Garbage(rng, 3)})
+			auxEnv.sync()
+			var vr par2.VerifyResult
+			if pi := core.Protect(func() { vr, err = par2.Verify(auxEnv.idx, par2.VerifyOptions{NumGoroutines: 1}) }); pi == nil && err == nil {
+				if w := len(auxEnv.st.Witnessed()); vr.ShardCounts.UsableDataShardCount < w {
+					r.Violate("untouched-slice-not-found", "warm-up set (slice size %d): %d witnessed, %d usable", aux.SliceSize, w, vr.ShardCounts.UsableDataShardCount)
+				}
+			}
+			auxEnv.close()
+		} else if auxEnv != nil {
+			auxEnv.close()
+		}
+	}
 	env, err := newP2Env(set, "e", 1+rng.Intn(4))
 	if env != nil {
 		defer env.close()
